@@ -26,6 +26,8 @@ func main() {
 		os.Exit(cmdVC(os.Args[2:]))
 	case "list":
 		os.Exit(cmdList(os.Args[2:]))
+	case "locals":
+		os.Exit(cmdLocals(os.Args[2:]))
 	case "replay":
 		os.Exit(cmdReplay(os.Args[2:]))
 	default:
@@ -57,6 +59,29 @@ func cmdList(args []string) int {
 		}
 		fmt.Printf("%-60s obligations=%d instr=%d err=%s\n", k, n, fr.NInstr, fr.Err)
 	}
+	return 0
+}
+
+// cmdLocals: records, for every function under contract, its local variables in declaration order
+// (/verif/contracts/locals.json). A contract that names a local which was since RENAMED is resolved through this table.
+func cmdLocals(args []string) int {
+	eng, err := loadEngine()
+	if err != nil {
+		fmt.Fprintln(os.Stderr, "load error:", err)
+		return 3
+	}
+	tab := map[string][]string{}
+	for _, k := range eng.cf.FuncOrder {
+		if fn := eng.funcs[k]; fn != nil {
+			tab[k] = localDecls(fn)
+		}
+	}
+	data, _ := json.MarshalIndent(tab, "", " ")
+	if err := os.WriteFile(filepath.Join(verifRoot(), "contracts", "locals.json"), data, 0o644); err != nil {
+		fmt.Fprintln(os.Stderr, err)
+		return 2
+	}
+	fmt.Printf("wrote locals of %d functions\n", len(tab))
 	return 0
 }
 
@@ -420,17 +445,27 @@ func cmdCheck(args []string) int {
 	// mechanical scans (syntactic frame conditions over all loaded functions of the repository)
 	evScans = nil
 	for _, sc := range pc.Scans {
-		if sc == "global-write" {
-			res := eng.scanGlobalWrites()
-			evScans = append(evScans, res)
-			for _, w := range res.Findings {
-				standinViol++
-				path := filepath.Join(outRoot(), "replays", P, "scan_global_write.replay.json")
-				os.MkdirAll(filepath.Dir(path), 0o755)
-				data, _ := json.MarshalIndent(ReplayFile{Property: P, Obligation: "scan global-write", Kind: "scan", Clause: "no package-level variable of the device/midi/config/input packages is written after init (devices share no mutable state)", Status: "failed", ReplayNote: w}, "", " ")
-				os.WriteFile(path, data, 0o644)
-				fmt.Printf("VIOLATION property=%s replay=%s no-failing-input-found\n  %s\n", P, path, w)
-			}
+		var res ScanResult
+		clause := ""
+		switch sc {
+		case "global-write":
+			res = eng.scanGlobalWrites()
+			clause = "no package-level variable of the device/midi/config/input packages is written after init (devices share no mutable state)"
+		case "guarded-access":
+			res = eng.scanGuardedAccess()
+			clause = "goroutines started by functions under contract access guarded device state only with the guarding mutex held (must-lockset dataflow)"
+		default:
+			fmt.Printf("UNDECIDED property=%s reason=unknown scan %s\n", P, sc)
+			return 3
+		}
+		evScans = append(evScans, res)
+		for i, w := range res.Findings {
+			standinViol++
+			path := filepath.Join(outRoot(), "replays", P, fmt.Sprintf("scan_%s_%d.replay.json", strings.ReplaceAll(sc, "-", "_"), i+1))
+			os.MkdirAll(filepath.Dir(path), 0o755)
+			data, _ := json.MarshalIndent(ReplayFile{Property: P, Obligation: "scan " + sc, Kind: "scan", Clause: clause, Status: "failed", ReplayNote: w}, "", " ")
+			os.WriteFile(path, data, 0o644)
+			fmt.Printf("VIOLATION property=%s replay=%s no-failing-input-found\n  %s\n", P, path, w)
 		}
 	}
 	if len(undecided) > 0 {
